@@ -188,6 +188,19 @@ CLAIMED = {
    note="JWS verification and cryptojwt's key selection are the decision function sigOk over who signed (trusted: signature soundness); JWE-wrapped ID tokens and "
         "several keys of one family with a missing kid are not exercised.",
    technique="Lean 4 proof (decision logic, acceptance implies conjunction) + mutation correspondence through message and service APIs", ref="6 C08"),
+ "C09": dict(
+   text="Lean theorems over a model of the relying party's state store (Current: _db and the shared nonce/sub map) and of init_authorization / "
+        "finalize_auth / token-response / user-info handling, with RPHandler's per-issuer dispatch: unknown, missing and foreign-issuer states "
+        "are rejected; iss / client_id response parameters naming another party are rejected; an ID token whose nonce is not the one sent for the "
+        "state the response is processed for is rejected whatever the map says (cross_nonce_rejected); user info about another subject is "
+        "rejected; every rejection leaves the store untouched (reject_is_noop); an accepted response changes only the record of its own state "
+        "(accept_is_local) and no other issuer's client (deliver_other_clients_untouched); and, by induction over ALL histories of begins and "
+        "deliveries with arbitrary recombination, every recorded ID token carries the nonce sent for its state "
+        "(recorded_token_has_own_nonce). Tie: histories over a real RPHandler with two issuers played by the harness, several pending flows, "
+        "responses recombined across flows and issuers; outcome and a canonical dump of every client's store compared with the model after "
+        "every step; oracle: locality, no-op on rejection, nonce and subject of recorded data.",
+   note="Validity of the ID tokens themselves is C08; logout bookkeeping (sid) and the composite RPHandler.finalize are checked by the oracle only.",
+   technique="Lean 4 proof (invariant by induction over operation histories of a state-store model) + history correspondence with per-step store dump", ref="6 C09"),
 }
 NOT_YET = {}
 ALL = [f"C{i:02d}" for i in range(1, 21)]
